@@ -659,10 +659,14 @@ def declare(r):
     import common
     r.extra["repo_under_test"] = common.REPO
     r.assumptions[:] = [
-        "hand model (Model/Local.lean) tied to xrspatial/local.py by the correspondence run only",
+        "model (Model/Local.lean) tied to xrspatial/local.py by the generated shapes of Gen/LocalFacts.lean (comparisons, NaN "
+        "tests, nditer order, offsets, numbering; harness/facts_local.py) and by the correspondence run",
         "the model follows the code as repaired by fixes/D11-local-nditer-index-order.patch (index-order iteration)",
-        "exact rational arithmetic: mean compared within 1e-9, std = sqrt of the model's exact variance within 1e-9; "
-        "+-inf layer values are outside the model",
+        "exact rational arithmetic: sum / mean / std (= sqrt of the exact variance) / averaged median compared within 1e-9 "
+        "where float64 evaluation is well conditioned; every other output compared with ==; +-inf reaches the model as "
+        "rationals beyond the finite values for the order-only operators, sum-like statistics with +-inf are oracle-only",
+        "a float32 reference layer is compared in float32 by NumPy (the Python scalar is rounded first): the frequency "
+        "oracle and the model request follow that promotion; other dtype pairs are exact for |v| <= 2^53 (generated range)",
         "same-shaped 2-D layers, at least two data layers (np.nditer over one array yields scalars and the code raises)",
         "rank / popularity: integer reference layers; references <= 0 follow Python's negative indexing (outside the property)",
     ]
@@ -676,7 +680,10 @@ def run(r, n_override=None, bias=None):
               "variables, shape 1x1..5x6, dtypes f8/f4/i8/i4, values ties{0,1,2}/ints/dyadics/wide, NaN in 45% of "
               "float layers, data_vars None/subset/shuffled, ref anywhere in the dataset, integer refs in 1..n mostly, "
               "layouts C/F/strided/F-strided/negative-strides/mixed; plus rasters holding ALL tuples over "
-              "{nan,0,1,2}^n; non-trivial = distinct case with a tie inside a NaN-free tuple or >= 2 NaN-free cells")
+              "{nan,0,1,2}^n; plus the edge stream: layers of every dtype f4/f8/i1..u8, per cell a near-tie cluster "
+              "(nextafter f4/f8, rel 1e-5..1e-9, abs 1e-8..1e-12, +-1 on ints up to 2^53) / +-inf combinations / "
+              "0.0,-0.0,subnormal / huge and dtype limits / plain ties, reference = base or neighbour in any dtype; "
+              "non-trivial = distinct case with a tie inside a NaN-free tuple or >= 2 NaN-free cells")
     reqs, pend = [], []
     for body in r.corpus():
         case = body["case"]
@@ -702,7 +709,7 @@ def run(r, n_override=None, bias=None):
                   rng=r.rng, meta=(k % 5 == 0))
         if len(reqs) >= 4000:
             flush(r, reqs, pend)
-    n_edge = {"quick": 8000, "thorough": 150000}[r.tier] if n_override is None else n_override
+    n_edge = {"quick": 8000, "thorough": 100000}[r.tier] if n_override is None else n_override
     for k in range(n_edge):
         op = ALL_OPS[k % len(ALL_OPS)]
         case, info = gen_edge(r.rng, op=op, force_layout=bias)
